@@ -119,6 +119,7 @@ pub struct Handler {
     pub http: HttpSrv,
     pub perm_seed: Mutex<Option<u64>>,
     pub perm_calls: Mutex<u64>,
+    pub kill: Mutex<Option<Arc<crate::engb::KillCtl>>>,
 }
 
 impl routinator::verif::Handler for Handler {
@@ -128,6 +129,18 @@ impl routinator::verif::Handler for Handler {
         Some(self.http.respond(
             &req.uri, req.etag.as_deref(), req.if_modified_since.as_deref()
         ))
+    }
+
+    fn kill_point(&self, site: &'static str) {
+        use std::sync::atomic::Ordering;
+        let kill = self.kill.lock().unwrap().clone();
+        let Some(kill) = kill else { return };
+        let n = kill.counter.fetch_add(1, Ordering::SeqCst);
+        if n == kill.at.load(Ordering::SeqCst) {
+            let _ = std::fs::remove_dir_all(&kill.image);
+            crate::engb::copy_dir(&kill.cache, &kill.image);
+            *kill.taken_site.lock().unwrap() = Some(site.into());
+        }
     }
 
     fn permute(&self, _site: &'static str, len: usize) -> Option<Vec<usize>> {
@@ -185,6 +198,10 @@ pub struct Sim {
     pub slurm: Option<SlurmModel>,
     /// TA certificate files currently served per TAL index.
     pub ta_files: BTreeMap<usize, FileId>,
+    /// The step whose validation run is interrupted at every kill point.
+    pub crash_step: Option<usize>,
+    pub crash_thorough: bool,
+    pub crash_mask: BTreeSet<(usize, usize)>,
 }
 
 #[derive(Clone, Copy, Debug, PartialEq, Eq)]
@@ -239,6 +256,7 @@ impl Sim {
             http: http.clone(),
             perm_seed: Mutex::new(None),
             perm_calls: Mutex::new(0),
+            kill: Mutex::new(None),
         });
         routinator::verif::install(handler.clone());
 
@@ -283,6 +301,9 @@ impl Sim {
             exceptions_json: None,
             slurm: None,
             ta_files: BTreeMap::new(),
+            crash_step: None,
+            crash_thorough: false,
+            crash_mask: BTreeSet::new(),
         };
         sim.stats.cas = n_cas;
         sim.write_tals();
@@ -467,6 +488,12 @@ impl Sim {
             self.apply_op(step, k, kind, &mut orng);
         }
 
+        if self.crash_step == Some(step) {
+            // No transport faults in the interrupted run: its outcome must
+            // not depend on which collector copies survive.
+            self.rsync_fail.clear();
+            self.rrdp_fail.clear();
+        }
         self.publish(step);
         let transport = self.build_servers(step);
         let mut state = self.state.clone();
@@ -474,24 +501,25 @@ impl Sim {
             &self.files, &self.world.tals, &self.cfg, &transport, self.now,
             &mut state,
         );
-        self.handler.perm_seed.lock().unwrap().replace(
-            mix(&[self.seed, 300, step as u64])
-        );
-        *self.handler.perm_calls.lock().unwrap() = 0;
+        if !self.cfg.dirty {
+            model::cleanup(
+                &self.files, &mut state, self.now,
+                &expect.rsync_modules_accessed(),
+                &expect.rrdp_repos,
+                self.cfg.rsync_on, self.cfg.rrdp_on,
+            );
+        }
+        if self.crash_step == Some(step) {
+            self.crash_explore(step, &expect, &transport, state);
+            return
+        }
+        self.reset_perm(step);
         let real = self.real_run(step);
         self.stats.steps += 1;
         match real {
             Ok((snapshot, metrics_ok)) => {
                 let _ = metrics_ok;
                 self.check_run(step, &expect, &snapshot, &transport);
-                if !self.cfg.dirty {
-                    model::cleanup(
-                        &self.files, &mut state, self.now,
-                        &expect.rsync_modules_accessed(),
-                        &expect.rrdp_repos,
-                        self.cfg.rsync_on, self.cfg.rrdp_on,
-                    );
-                }
                 self.state = state;
                 self.check_store(step, &expect);
             }
@@ -507,6 +535,13 @@ impl Sim {
                 });
             }
         }
+    }
+
+    fn reset_perm(&self, step: usize) {
+        self.handler.perm_seed.lock().unwrap().replace(
+            mix(&[self.seed, 300, step as u64])
+        );
+        *self.handler.perm_calls.lock().unwrap() = 0;
     }
 
     fn pick_clock_delta(&mut self, rng: &mut Rng) -> i64 {
@@ -1611,4 +1646,341 @@ impl Sim {
             ops: self.ops,
         }
     }
+}
+
+
+//------------ C23: crash points of a validation run -------------------------
+
+impl Sim {
+    fn restore_cache(&self, from: &Path) {
+        let cache = self.scratch.join("cache");
+        let _ = std::fs::remove_dir_all(&cache);
+        crate::engb::copy_dir(from, &cache);
+    }
+
+    /// Reads every stored point below the cache: key -> (manifest, crl,
+    /// objects) or None for a point without a stored manifest.
+    #[allow(clippy::type_complexity)]
+    fn read_store(
+        &self
+    ) -> Result<BTreeMap<String, Option<(Bytes, Bytes, Vec<(String, Bytes)>)>>, String> {
+        use routinator::store::StoredPoint;
+        let base = self.scratch.join("cache").join("stored");
+        let mut res = BTreeMap::new();
+        let mut stack = vec![base.join("rsync"), base.join("rrdp")];
+        while let Some(dir) = stack.pop() {
+            let Ok(read) = std::fs::read_dir(&dir) else { continue };
+            let mut entries: Vec<_> = read.filter_map(|e| e.ok()).collect();
+            entries.sort_by_key(|e| e.file_name());
+            for entry in entries {
+                let path = entry.path();
+                if path.is_dir() {
+                    stack.push(path);
+                    continue
+                }
+                let key = path.strip_prefix(&base).unwrap()
+                    .to_string_lossy().into_owned();
+                let key = {
+                    let parts: Vec<&str> = key.split('/').collect();
+                    if parts[0] == "rrdp" && parts.len() > 3 {
+                        format!("rrdp/{}/{}", parts[1], parts[3..].join("/"))
+                    }
+                    else { key.clone() }
+                };
+                let len = std::fs::metadata(&path).map(|m| m.len()).unwrap_or(0);
+                let Some(mut point) = StoredPoint::load_quietly(path.clone())
+                else {
+                    // An unreadable file is fine only if it is a (partial)
+                    // header, which the store recreates.
+                    if len > 4096 {
+                        return Err(format!(
+                            "stored point {key} ({len} bytes) does not load"
+                        ))
+                    }
+                    res.insert(key, None);
+                    continue
+                };
+                let Some(manifest) = point.manifest().cloned() else {
+                    res.insert(key, None);
+                    continue
+                };
+                let mut objects = Vec::new();
+                for item in &mut point {
+                    match item {
+                        Ok(obj) => objects.push(
+                            (obj.uri.to_string(), obj.content.clone())
+                        ),
+                        Err(err) => return Err(format!(
+                            "stored point {key}: object read error {err}"
+                        )),
+                    }
+                }
+                objects.sort();
+                res.insert(key, Some((
+                    manifest.manifest.clone(), manifest.crl.clone(), objects
+                )));
+            }
+        }
+        Ok(res)
+    }
+
+    fn model_store_side(
+        &self, state: &ModelState
+    ) -> BTreeMap<String, (Bytes, Bytes, Vec<(String, Bytes)>)> {
+        let mut res = BTreeMap::new();
+        for point in state.store.values() {
+            let rest = point.mft_uri.trim_start_matches("rsync://");
+            let key = match point.rpki_notify.as_ref() {
+                Some(notify) => {
+                    let auth = notify.trim_start_matches("https://")
+                        .split('/').next().unwrap().to_string();
+                    format!("rrdp/{}/rsync/{}", auth, rest)
+                }
+                None => format!("rsync/rsync/{rest}"),
+            };
+            let mut objects: Vec<(String, Bytes)> = point.objects.iter().map(
+                |(uri, id)| (uri.clone(), self.files.get(*id).bytes.clone())
+            ).collect();
+            objects.sort();
+            res.insert(key, (
+                self.files.get(point.mft).bytes.clone(),
+                self.files.get(point.crl).bytes.clone(),
+                objects
+            ));
+        }
+        res
+    }
+
+    fn crash_explore(
+        &mut self, step: usize, expect: &Expect, transport: &Transport,
+        state_after: ModelState,
+    ) {
+        use std::sync::atomic::Ordering;
+        let kill = Arc::new(crate::engb::KillCtl {
+            cache: self.scratch.join("cache"),
+            image: self.scratch.join("image"),
+            at: std::sync::atomic::AtomicI64::new(-1),
+            counter: std::sync::atomic::AtomicI64::new(0),
+            taken_site: Mutex::new(None),
+        });
+        *self.handler.kill.lock().unwrap() = Some(kill.clone());
+        let pre = self.scratch.join("pre");
+        let _ = std::fs::remove_dir_all(&pre);
+        crate::engb::copy_dir(&self.scratch.join("cache"), &pre);
+
+        // The uninterrupted run.
+        self.reset_perm(step);
+        let reference = match self.real_run(step) {
+            Ok((snapshot, _)) => {
+                self.check_run(step, expect, &snapshot, transport);
+                snapshot_to_set(&snapshot).0
+            }
+            Err(msg) => {
+                self.violation("C23", "run-failed", step, format!(
+                    "uninterrupted run failed: {msg}"
+                ));
+                return
+            }
+        };
+        self.stats.steps += 1;
+        let n_points = kill.counter.load(Ordering::SeqCst);
+        self.stats.probes.insert("kill-points".into(), n_points as u64);
+        // What the run after a completed run gives (cleanup has removed
+        // expired points by then). A kill during cleanup leaves a state in
+        // between, point by point.
+        let post = self.scratch.join("post");
+        let _ = std::fs::remove_dir_all(&post);
+        crate::engb::copy_dir(&self.scratch.join("cache"), &post);
+        self.reset_perm(step);
+        let reference2 = match self.real_run(step) {
+            Ok((snapshot, _)) => snapshot_to_set(&snapshot).0,
+            Err(msg) => {
+                self.violation("C23", "run-failed", step, format!(
+                    "second uninterrupted run failed: {msg}"
+                ));
+                return
+            }
+        };
+        let _ = std::fs::remove_dir_all(&post);
+        let before = self.model_store_side(&self.state);
+        let after = self.model_store_side(&state_after);
+
+        let mut points: Vec<i64> = (0..n_points).collect();
+        if !self.crash_thorough && points.len() > 10 {
+            let mut prng = Rng::new(mix(&[self.seed, 600]));
+            prng.shuffle(&mut points);
+            points.truncate(10);
+            points.sort();
+        }
+        let mut seen_images: BTreeSet<Vec<u8>> = BTreeSet::new();
+        let mut images = 0u64;
+        for &k in &points {
+            if self.crash_mask.contains(&(step, 1000 + k as usize)) {
+                continue
+            }
+            self.restore_cache(&pre);
+            kill.counter.store(0, Ordering::SeqCst);
+            kill.at.store(k, Ordering::SeqCst);
+            *kill.taken_site.lock().unwrap() = None;
+            self.reset_perm(step);
+            let _ = self.real_run(step);
+            kill.at.store(-1, Ordering::SeqCst);
+            let Some(site) = kill.taken_site.lock().unwrap().clone() else {
+                continue
+            };
+            let digest = crate::engb::dir_digest(&kill.image);
+            if !seen_images.insert(digest) {
+                continue
+            }
+            images += 1;
+            self.stats.fault(&format!("kill@{site}"));
+            self.ops.push(json!({
+                "step": step, "k": 1000 + k, "op": "kill", "site": site,
+                "of": n_points
+            }));
+            self.note(format!("kill at point {k}/{n_points} ({site})"));
+            // The process is gone; the image is what is left.
+            self.restore_cache(&kill.image);
+
+            // (a) every stored point is its previous or new version.
+            match self.read_store() {
+                Err(msg) => self.violation("C23", "store-unreadable", step, format!(
+                    "after kill at {site} (point {k}): {msg}"
+                )),
+                Ok(found) => {
+                    for (key, content) in &found {
+                        let Some(content) = content else { continue };
+                        let ok = before.get(key) == Some(content)
+                            || after.get(key) == Some(content);
+                        if !ok {
+                            self.violation("C23", "mixed-point", step, format!(
+                                "after kill at {site} (point {k}): stored \
+                                 point {key} is neither its previous nor its \
+                                 new complete version"
+                            ));
+                        }
+                    }
+                    for key in before.keys() {
+                        if after.contains_key(key)
+                            && !matches!(found.get(key), Some(Some(_)))
+                        {
+                            self.violation("C23", "point-lost", step, format!(
+                                "after kill at {site} (point {k}): stored \
+                                 point {key} lost"
+                            ));
+                        }
+                    }
+                }
+            }
+            // (d) the store status must be readable (or absent).
+            let config = self.config(true);
+            match Engine::new(&config, false) {
+                Ok(engine) => {
+                    if engine.store_status().is_err() {
+                        self.violation("C23", "status-unreadable", step, format!(
+                            "after kill at {site} (point {k}): the store \
+                             status cannot be read, commands relying on it \
+                             (vrps --update-after) fail"
+                        ));
+                    }
+                }
+                Err(_) => self.violation("C23", "engine-new", step, format!(
+                    "after kill at {site}: Engine::new failed"
+                )),
+            }
+            // (b) an offline run works.
+            {
+                let mut cfg = self.config(false);
+                cfg.dirty_repository = true;
+                match Engine::new(&cfg, false).map_err(|_| "new".to_string())
+                    .and_then(|engine| {
+                        ValidationReport::process(&engine, &cfg, false)
+                            .map_err(|e| format!("fatal={}", e.is_fatal()))
+                    })
+                {
+                    Ok(_) => { }
+                    Err(msg) => self.violation("C23", "offline-run-failed", step,
+                        format!("after kill at {site} (point {k}): offline \
+                                 run failed ({msg})")),
+                }
+            }
+            // (c) the next online run gives the uninterrupted run's result.
+            // A retryable failure (corrupt collector copy found and removed)
+            // followed by a successful retry is how every command and the
+            // server proceed.
+            self.reset_perm(step);
+            let mut next = self.real_run(step);
+            if matches!(&next, Err(msg) if msg.contains("fatal=false")) {
+                self.stats.probe("next-run-retried");
+                self.reset_perm(step);
+                next = self.real_run(step);
+            }
+            match next {
+                Ok((snapshot, _)) => {
+                    let (set, _) = snapshot_to_set(&snapshot);
+                    let in_cleanup = site.starts_with("store.cleanup");
+                    let relaxed_ok = in_cleanup && {
+                        set.origins.iter().all(|i| {
+                            reference.origins.contains(i)
+                                || reference2.origins.contains(i)
+                        })
+                        && set.keys.iter().all(|i| {
+                            reference.keys.contains(i)
+                                || reference2.keys.contains(i)
+                        })
+                        && set.aspas.keys().all(|c| {
+                            reference.aspas.contains_key(c)
+                                || reference2.aspas.contains_key(c)
+                        })
+                        && reference.origins.iter().all(|i| {
+                            !reference2.origins.contains(i)
+                                || set.origins.contains(i)
+                        })
+                        && reference.keys.iter().all(|i| {
+                            !reference2.keys.contains(i)
+                                || set.keys.contains(i)
+                        })
+                    };
+                    if relaxed_ok && set != reference {
+                        self.stats.probe("cleanup-kill-intermediate-result");
+                    }
+                    if set != reference && !relaxed_ok {
+                        let extra = set.minus(&reference);
+                        let missing = reference.minus(&set);
+                        self.violation("C23", "different-result", step, format!(
+                            "after kill at {site} (point {k}): next run \
+                             differs from the uninterrupted run: extra \
+                             {extra:?} missing {missing:?}"
+                        ));
+                    }
+                }
+                Err(msg) => self.violation("C23", "next-run-failed", step, format!(
+                    "after kill at {site} (point {k}): next run failed: {msg}"
+                )),
+            }
+            if !self.violations.is_empty() {
+                break
+            }
+        }
+        self.stats.probes.insert("images-checked".into(), images);
+        *self.handler.kill.lock().unwrap() = None;
+        self.state = state_after;
+    }
+}
+
+pub fn run_crash(
+    seed: u64, profile: &Profile, mask: &BTreeSet<(usize, usize)>,
+    scratch: &Path, thorough: bool,
+) -> RunResult {
+    let mut sim = Sim::new(seed, profile.clone(), scratch);
+    sim.crash_step = Some(profile.steps - 1);
+    sim.crash_thorough = thorough;
+    sim.crash_mask = mask.clone();
+    for step in 0..profile.steps {
+        sim.step(step, mask);
+        if sim.violations.iter().any(|v| v.class == "harness") {
+            break
+        }
+    }
+    sim.finish()
 }
